@@ -111,7 +111,16 @@ theorem bankerSend_steps (env : Env) (st st' : St) (b : Option Nat) (src dst : S
               simp only [Bool.or_eq_true, Option.isNone_iff_eq_none, bne_iff_ne, ne_eq, not_or, Decidable.not_not] at hfrom
               rw [hfrom.2, hs]
             have hbt' : bi.bt ≠ 0 := by simpa using hbt
-            have s1 : Steps env st { st with spent := spent' } := Steps.single (Atom.spent st spent')
+            have hsp : spent' = st.spent ∨ isAllGTE env.osend spent' = true := by
+              unfold originCheck at h1
+              split at h1
+              · split at h1
+                · cases h1
+                · split at h1
+                  · rename_i hg; cases h1; exact Or.inr hg
+                  · cases h1
+              · cases h1; exact Or.inl rfl
+            have s1 : Steps env st { st with spent := spent' } := Steps.single (Atom.spent st spent' hsp)
             have s2 := sendCoins_steps env { st with spent := spent' } bid bi s d amt bank' hbi hbt' haddr h3
             exact Steps.trans s1 s2
           · cases h2
